@@ -76,6 +76,26 @@ def sites(facts, body, regex, depth=3):
     return out
 
 
+class BodySet(list):
+    """Several crate functions playing one role (e.g. two marking primitives); `.path` is the first, `.paths` all."""
+
+    @property
+    def path(self):
+        return self[0].path
+
+    @property
+    def paths(self):
+        return {b.path for b in self}
+
+    @property
+    def path_regex(self):
+        return "(" + "|".join(re.escape(b.path) for b in self) + ")$"
+
+
+def _paths_of(target):
+    return target.paths if isinstance(target, BodySet) else {target.path}
+
+
 class Roles:
     def __init__(self, ctx):
         self.ctx = ctx
@@ -129,9 +149,9 @@ class Roles:
     @property
     def mark_fn(self):
         m = self.mark_fns
-        if len(m) != 1:
-            raise AnchorLost("MARK: exactly one crate function off the wake path must enqueue (found %d)" % len(m))
-        return m[0]
+        if len(m) < 1:
+            raise AnchorLost("MARK: no crate function off the wake path enqueues")
+        return BodySet(m)
 
     @property
     def register_fns(self):
@@ -332,8 +352,9 @@ class Roles:
         return self._c("acc", find)
 
     def calls_to_body(self, body, target_body):
+        ps = _paths_of(target_body)
         return [(bb, t, fn) for bb, t, fn in body.calls()
-                if fn is not None and fn_name(fn) == target_body.path and not body.is_cleanup(bb)]
+                if fn is not None and fn_name(fn) in ps and not body.is_cleanup(bb)]
 
     def callers_of(self, target_body):
         out = []
